@@ -249,8 +249,10 @@ def snapshot(x):
             expo = tuple(map(tuple, numpy.asarray(x.exponents).tolist()))
         except Exception as err:  # noqa: BLE001
             expo = ("exponents-raise", type(err).__name__)
+        # the field names of the raw storage are part of the object too: they must keep matching `keys` (seeded change
+        # C17-11 renamed them through a dtype object shared with a copy)
         return ("poly", x.shape, str(x.dtype), tuple(x.names), tuple(str(k) for k in numpy.asarray(x.keys).ravel()),
-                expo, numpy.ascontiguousarray(v).tobytes())
+                expo, numpy.ascontiguousarray(v).tobytes(), tuple(v.dtype.names or ()))
     if isinstance(x, numpy.ndarray):
         return ("array", x.shape, str(x.dtype), numpy.ascontiguousarray(x).tobytes())
     if isinstance(x, (list, tuple)):
